@@ -13,6 +13,9 @@ from .common import PY, VERIF, NCPU, driver_env, MachineryError, seed
 
 def run_driver(name, wd, tier, nshards=None, args=(), timeout=3600, env=None):
     nshards = nshards or NCPU
+    if name in ('c06', 'c08', 'c14t'):      # drivers that speak real TLS: the test certificate bin/setup makes (made here if missing)
+        from .setup import make_cert
+        make_cert()
     outs = [os.path.join(wd, '%s_%d.jsonl' % (name, i)) for i in range(nshards)]
 
     def one(i):
